@@ -158,7 +158,9 @@ def stmts(k, menu, d, loop, fin):
     for a in range(1, m):
       for b in nblocks(a, menu, d - 1, True, fin and 'loop'):
         for c in nblocks(m - a, menu, d - 1, loop, fin):
-          yield ('for', 'i', b, c)
+          for tg in menu.for_targets:
+            if tg in ('i', 'x'):
+              yield ('for', tg, b, c)
   if 'tryexelse' in comp:
     for a in range(1, m - 1):
       for b2 in range(1, m - a):
